@@ -183,8 +183,9 @@ class ProcessWorker(Worker):
             result = self.do_work()
             self._comms.child_end.put(((True, result), self._user_state))
         except Exception as e:
-            logger.exception('Exception occurred while running the main function')
+            # report the failure first, a termination request can still arrive while logging
             self._comms.child_end.put(((False, e), self._user_state))
+            logger.exception('Exception occurred while running the main function')
         finally:
             self._cleanup()
             if self._ctrl_thread.is_alive() and not self._terminate_req:
